@@ -5,9 +5,23 @@ ALLMUT = ["construct", "assertions", "navigate", "wrap", "elide", "compress", "e
 
 def cfg(name, phases, atoms=("a1", "a2"), kvs=(1,), nreg=2, keys=("k1",), maxsize=7, maxt=2, shapes="{}",
         inv=("WellFormedInv", "DeclaredDigestHonest", "RevealKeepsDigest"),
-        props=("C02Prop", "C03Prop", "C07Prop"), module="MC"):
-    return dict(name=name, phases=phases, atoms=atoms, kvs=kvs, nreg=nreg, keys=keys, maxsize=maxsize, maxt=maxt,
-                shapes=shapes, inv=inv, props=props, module=module)
+        props=("C02Prop", "C03Prop", "C07Prop"), module="MC", **kw):
+    d = dict(name=name, phases=phases, atoms=atoms, kvs=kvs, nreg=nreg, keys=keys, maxsize=maxsize, maxt=maxt,
+             shapes=shapes, inv=inv, props=props, module=module)
+    d.update(kw)
+    return d
+
+
+def policies(max_groups, max_members):
+    """All SSKR policies <<gt, <<<<m1,n1>>,...>>>> with <= max_groups groups of <= max_members members."""
+    import itertools
+    gs = [(m, n) for n in range(1, max_members + 1) for m in range(1, n + 1)]
+    out = []
+    for k in range(1, max_groups + 1):
+        for combo in itertools.product(gs, repeat=k):
+            for gt in range(1, k + 1):
+                out.append("<<%d, <<%s>>>>" % (gt, ", ".join("<<%d, %d>>" % g for g in combo)))
+    return "{" + ", ".join(out) + "}"
 
 B3 = '{Leaf(V("a1")), Leaf(V("a2")), KV(1)}'
 B2 = '{Leaf(V("a1")), KV(1)}'
@@ -49,6 +63,34 @@ CONFIGS = [
     cfg("decode_t", [["build"], ["elideset", "compressone", "decodewire", "codec"], ["decodewire2", "codec"]], nreg=1, maxsize=12, maxt=1,
         inv=("WellFormedInv", "C05RoundTrip"), props=("C06Prop",),
         shapes="ShUpTo(%s, 4) \\cup {e \\in Sh(%s, 5) : IsNode(e)} \\cup Nodes2(%s) \\cup TkvShapes" % (B2, B2, B1)),
+    # signatures: sign, decorate / obscure / forge, verify (C09)
+    cfg("sig_q", [["build"], ["signature"], ["signature", "forgesigned", "elideset", "addassertion"], ["verify"]],
+        atoms=("a1",), nreg=1, maxsize=30, maxt=1, inv=("WellFormedInv",), props=("C09Prop",),
+        shapes="ShUpTo(%s, 2) \\cup {e \\in Sh(%s, 5) : IsNode(e)}" % (B1, B1)),
+    # recipients and seal (C10)
+    cfg("recipient_q", [["build"], ["recipient_enc"], ["recipient_add", "addassertion", "recipient_dec"], ["recipient_dec"]],
+        atoms=("a1",), nreg=1, maxsize=30, maxt=1, inv=("WellFormedInv",), props=("C10Prop",),
+        shapes="ShUpTo(%s, 3) \\cup {e \\in Sh(%s, 5) : IsNode(e)}" % (B1, B1)),
+    # SSKR: every policy x every subset of the shares; shares of two splits mixed (C11)
+    cfg("sskr_q", [["build"], ["encrypt"], ["sskr_splitjoin"]],
+        atoms=("a1",), nreg=1, maxsize=30, maxt=1, inv=("WellFormedInv",), props=("C11Prop",), policies=policies(2, 3),
+        shapes="ShUpTo(%s, 2) \\cup {e \\in Sh(%s, 5) : IsNode(e)}" % (B1, B1)),
+    cfg("sskr_mix_q", [["build"], ["encrypt"], ["sskr_pick"], ["sskr_pick", "encrypt"], ["sskr_join"]],
+        atoms=("a1",), nreg=2, keys=("k1", "k2"), maxsize=30, maxt=1, inv=("WellFormedInv",), props=("C11Prop",),
+        policies="{<<1, <<<<2, 2>>>>>>, <<1, <<<<1, 2>>>>>>, <<2, <<<<1, 1>>, <<1, 1>>>>>>}",
+        shapes="{Leaf(V(\"a1\"))}"),
+    # inclusion proofs (C12)
+    cfg("proof_q", [["build"], ["build", "proof"], ["proof", "elideset"], ["confirm"]],
+        nreg=2, maxsize=12, maxt=2, inv=("WellFormedInv",), props=("C12Prop",),
+        shapes="ShUpTo(%s, 3) \\cup {e \\in Sh(%s, 5) : IsNode(e)} \\cup Nodes2(%s)" % (B2, B2, B1)),
+    # types and attachments (C19)
+    cfg("attach_q", [["build"], ["build", "types", "attach", "badattach"], ["types", "attach", "badattach"], ["obs_types", "obs_attach"]],
+        atoms=("a1",), nreg=2, maxsize=30, maxt=1, inv=("WellFormedInv",), props=("C19Prop",),
+        shapes="ShUpTo(%s, 2) \\cup {e \\in Sh(%s, 5) : IsNode(e)}" % (B1, B1)),
+    # salt: structure (C17, direction A)
+    cfg("salt_q", [["build"], ["salt"], ["salt", "lookup"]],
+        atoms=("a1",), nreg=2, maxsize=30, maxt=1, inv=("WellFormedInv",), props=("C17Prop",),
+        shapes="ShUpTo(%s, 3) \\cup {e \\in Sh(%s, 5) : IsNode(e)}" % (B2, B1)),
     # an assertion and its obscured twin
     cfg("twin_q", [["build"], ["navigate"], ["elideone", "compressone", "navigate"], ["assertions"]], maxsize=9, maxt=1,
         shapes="{e \\in ShUpTo(%s, 5) : IsNode(e)}" % B2),
